@@ -76,3 +76,10 @@ pub fn scratch_cleanup() {
     let base = std::env::var("VERIF_SCRATCH").unwrap_or_else(|_| "/dev/shm".into());
     let _ = std::fs::remove_dir_all(format!("{}/verif-{}", base, std::process::id()));
 }
+
+/// Real monotonic seconds (raw syscall: unaffected by the virtual / frozen clock).
+pub fn real_now_s() -> f64 {
+    let mut ts = libc::timespec { tv_sec: 0, tv_nsec: 0 };
+    unsafe { libc::syscall(libc::SYS_clock_gettime, libc::CLOCK_MONOTONIC, &mut ts) };
+    ts.tv_sec as f64 + ts.tv_nsec as f64 * 1e-9
+}
